@@ -257,13 +257,14 @@ def run(repo: Repo, ctx, descriptive: bool = False) -> None:
         t = norm(tests[0].test)
         ok = all(x in t for x in ('not field.allow_ddl_set',
                                   'field.special_ddl_syntax',
+                                  'isinstance(parent_node, qlast.AlterObject)',
                                   "self.property != 'expr'",
                                   'parent_node_attr is None')) and \
             isinstance(tests[0].body[-1], ast.Return) and \
             norm(tests[0].body[-1].value) == 'None'
     ctx.ob(rule, 'AlterObjectProperty._get_ast:predicate', ok,
            'the "no AST for this field" predicate of _get_ast no longer '
-           'tests {allow_ddl_set, special_ddl_syntax, expr, AST attribute}: '
+           'tests {allow_ddl_set, special_ddl_syntax under an ALTER *node*, expr, AST attribute}: '
            'the field table above is no longer what decides expressibility',
            ga.loc, sample='four disjuncts')
 
@@ -477,6 +478,18 @@ def _r5(repo: Repo, ctx) -> None:
                        sample='iterate over a copy', nontrivial=bool(bad))
     if n_loops < 20:
         raise AnalysisError(f'C02.R5: only {n_loops} name-iterating loops')
+    # (a2) same-typed arguments (old / new schema, ours / theirs) reach the
+    #      parameter of their own name
+    from .. import lints
+    n_c, hits = lints.swapped_arguments(repo, ['edb.schema'])
+    if n_c < 500:
+        raise AnalysisError(f'C02.R5: only {n_c} resolved call sites')
+    ctx.ob('C02.R5', 'edb.schema:argument-alignment', not hits,
+           '; '.join(f'{f.qualname} passes `{a}` and `{b}` to {cal.name} '
+                     f'each in the position of the parameter named like '
+                     f'the other' for f, c, cal, a, b in hits[:3]),
+           hits[0][0].loc if hits else '',
+           sample=f'{n_c} resolved call sites checked')
     # (b) a position index of a list is rebuilt after every change of the list
     cb = repo.func('edb.schema.inheriting.RebaseInheritingObject.'
                    '_compute_new_bases')
